@@ -217,6 +217,16 @@ def guards(src, fleet_src, fname):
     return {"maxAttemptsValidated": max_ok, "namesDistinctAtConstruction": distinct_new, "namesDistinctAtAdd": distinct_add}
 
 
+def invalidate_unconditional(src, fname):
+    """`invalidate_client` takes the node slot's lock (waiting for it) and empties the slot, whatever else
+    is going on: no `try_lock`, no condition, no early return. Anything else is reported as false."""
+    flat = " ".join(fn_body(src, "invalidate_client").split())
+    if re.fullmatch(r"let mut (\w+) = lock_node_client\(&\w+\.client\); \*\1 = None;", flat):
+        lk = " ".join(fn_body(src, "lock_node_client").split())
+        return bool(re.fullmatch(r"match \w+\.lock\(\) \{ Ok\((\w+)\) => \1, Err\((\w+)\) => \2\.into_inner\(\),? \}", lk))
+    return bool(re.fullmatch(r"let mut (\w+) = \w+\.client\.lock\(\)\.await; \*\1 = None;", flat))
+
+
 def extract():
     facts = {}
     facts["deadKinds"] = dead_kinds("src/client.rs")
@@ -237,6 +247,7 @@ def extract():
         facts[nm("nodeTimeout")] = node_timeout(src, "call_json_with_retry", path) and node_timeout(src, "call_message_with_retry", path)
         facts[nm("filter")] = filter_form(src, path)
         facts[nm("fanOutOverTargets")] = fan_out(src, path)
+        facts[nm("invalidateUnconditional")] = invalidate_unconditional(src, path)
         for gk, gv in guards(src, test_mod_cut(strip(read("src/fleet.rs"))), path).items():
             facts[nm(gk)] = gv
         facts.setdefault("where", {})[path] = {"is_retryable_error": line_of(raw, "fn is_retryable_error"),
@@ -272,6 +283,8 @@ def render(f):
          f"def asyncFilter : FilterForm := .{f['asyncFilter']}",
          f"def fanOutOverTargets : Bool := {b(f['fanOutOverTargets'])}",
          f"def asyncFanOutOverTargets : Bool := {b(f['asyncFanOutOverTargets'])}",
+         f"def invalidateUnconditional : Bool := {b(f['invalidateUnconditional'])}",
+         f"def asyncInvalidateUnconditional : Bool := {b(f['asyncInvalidateUnconditional'])}",
          f"def maxAttemptsValidated : Bool := {b(f['maxAttemptsValidated'])}",
          f"def asyncMaxAttemptsValidated : Bool := {b(f['asyncMaxAttemptsValidated'])}",
          f"def namesDistinctAtConstruction : Bool := {b(f['namesDistinctAtConstruction'])}",
